@@ -1,3 +1,5 @@
+#[cfg(feature = "clpfd")]
+use crate::compound::CompoundObject;
 use crate::engine::Engine;
 use crate::goal::{AnyGoal, Goal};
 use crate::lterm::{LTerm, LTermInner};
@@ -40,6 +42,23 @@ fn force_ans<U: User, E: Engine<U>>(x: LTerm<U, E>) -> Goal<U, E> {
                     force_ans(tail),
                 ]);
                 g.solve(solver, state)
+            },
+            (LTermInner::<U, E>::Compound(compound), _) => {
+                // Label the variables in the fields of a compound term like list elements
+                fn field_terms<U: User, E: Engine<U>>(
+                    compound: &dyn CompoundObject<U, E>,
+                    terms: &mut Vec<LTerm<U, E>>,
+                ) {
+                    for child in compound.children() {
+                        match child.as_term() {
+                            Some(term) => terms.push(term.clone()),
+                            None => field_terms(child, terms),
+                        }
+                    }
+                }
+                let mut fields = vec![];
+                field_terms(compound.as_ref(), &mut fields);
+                force_ans(LTerm::from_vec(fields)).solve(solver, state)
             },
             (_, _) => solver.start(&Goal::Succeed, state),
         }
